@@ -35,6 +35,7 @@ def run(ctx, report):
         report.section(cls.name, one_reader, ctx, report, cls)
     report.section("defaults", S.rule_defaults, report, ctx.index, "2")
     report.section("direct global mutation", S.rule_globalmut_direct, report, ctx.index, "4")
+    report.section("memoised functions", memoised, ctx, report)
     report.section("scratch lists", scratch_lists, ctx, report, rs)
     from . import chain_fold
     report.section("reader objects used repeatedly", chain_fold.reader_reuse, ctx, report, "R-DOC-REUSE", "1")
@@ -112,3 +113,11 @@ def scratch_lists(ctx, report, rs):
                              {"offending_paths": bad_paths[:2]}, "4")
     if n < 2:
         raise AnalysisError(f"R-SCRATCH: only {n} scratch lists found (floor 2: DFXPReader.nodes, SAMIReader.line)")
+
+
+def memoised(ctx, report):
+    from ..core.tree import SourceTree
+    from ..core.index import Index
+    S.rule_memo_selftest(lambda files: Index(SourceTree(files, label="R-MEMO example")))
+    n_fn, n_memo = S.rule_memo(report, ctx.index, "4")
+    report.count("functions_scanned_for_memoising_decorators", n_fn)
